@@ -208,7 +208,7 @@ impl Ctx {
             let body = json!({"property": self.id, "key": v.key, "what": v.what, "case": v.case});
             std::fs::write(&path, serde_json::to_string_pretty(&body).unwrap()).ok();
             println!("VIOLATION property={} replay={}", self.id, path);
-            println!("  key={} :: {}", v.key, v.what);
+            println!("  key={} :: {}", v.key, v.what.chars().take(400).collect::<String>());
             viol_json.push(json!({"key": v.key, "what": v.what, "replay": path}));
         }
         let total_viol: u64 = g.viol_per_key.values().sum();
